@@ -118,6 +118,25 @@ STMTS = ['global a', 'nonlocal a', 'a = 1', 'a: int', 'a += 1', 'del a', 'return
          'a = [*b for b in c]', 'def k(a=(yield)): pass', 'a = (b for b in c)(d)', 'nonlocal_ = 1; del (a, b)', 'from __future__ import *',
          '[x := 1 for [a, b] in y]', '{**a}', 'a = {**b, **c}', 'print(*a, **b)', '(a, b) += 1', 'f() = 1', 'a.b: int = 1',
          'del f()', 'for f() in a: pass', 'with a as f(): pass', 'import a as b.c', 'x = yield = 1', 'a = *b']
+# further statements that exercise the individual rules of errors.py near their boundaries; used alone and
+# paired with the scope-sensitive statements only (to keep the product small)
+EXTRA = ["a = R'\\x'", "a = bR'\\x\\u'", "a = '\\x41\\u0041\\N{DASH}'", "a = rb'\\N'", "a = 'a' 'b' f'{a}'", "a = b'\\x41' b'c'",
+         'f().x: int', 'f()[0]: int = 1', 'a.b().c: int', '(a): int', 'a[0]: int', 'a.b += 1', 'a[0] += 1', 'f().x += 1',
+         '*a, = b', '[*a, b] = c', 'a = [*b]', 'print(*a)', 'a = *b,', 'for *a, b in c: pass',
+         'f(a, *b, c=1, **d)', 'f(*a, b)', 'f(**a, b=1)', 'f(a for a in b)', 'f(a, b for b in c) if 0 else 1',
+         'del a[0], a.b', 'del (a), [b]', 'def g(*, a): pass', 'def g(a, *, b=1, **c): pass', 'x = lambda *a, b: 0',
+         'class D(a, metaclass=b): pass', '@a.b(c)\ndef g(): pass', '@a[0]\ndef g(): pass', '(a := 1)', 'if (n := 1): pass',
+         'from . import a', 'from .. import (a, b,)', 'import a.b as c, d', 'a = 0x1f + 1_000 + 0o7 + 1e5j',
+         "a = f'{a!r}' f'{a:>{b}}'", "a = f'{a=}'", "a = f'{{}}'", 'a = f"{a[\'b\']}"', "a = f'{a:{b}.{c}}'",
+         'def g():\n    yield from a', 'def g(): return (yield)', 'async def g():\n    async for a in b: pass\n    async with d: pass',
+         'a = {**b}', 'a = {*b}', 'a = {b: c, **d}', 'a = {b for b in c}', 'a = {b: c for b in d}', 'a = b[1:2, ::3]', 'a = b[...]',
+         'assert a, b', 'raise a from b', 'a = b < c < d', 'a = b if c else d', 'a = b @ c', 'a @= b', 'def g(a, /, b): pass',
+         'x = lambda a, /: 0', 'def o():\n    a = 1\n    def i():\n        nonlocal a', 'a = b = c', 'a: int = b',
+         'try: pass\nexcept a: pass\nexcept: pass\nelse: pass', 'while a:\n    if b: continue\n    break\nelse: pass',
+         'with a, b as c: pass', 'a = not b', 'a = (yield)', 'a = await b', 'a = [b async for b in c]', 'return', 'a = -b ** -c',
+         'a, b = c', '(a, b) = c', '[a, b] = c', 'a.b = c', 'a[b] = c', 'for a.b in c: pass', 'for a[0] in c: pass',
+         'with a as b.c: pass', 'with a as b[0]: pass', 'a = b.c(*d, **e)', 'global_ = 1', 'a = `b`' if False else 'a = (b)']
+SCOPE_SENSITIVE = ['global a', 'nonlocal a', 'return a', 'yield', 'await a', 'a = 1']
 HEADERS = [None, 'def f(a):', 'async def f():', 'class C:', 'def f():\n    def g():', 'for q in r:']
 
 
@@ -125,9 +144,17 @@ def g4_programs(k):
     """all programs of <= k statements from STMTS under each header (nesting depth <= 2)"""
     import itertools
     for h in HEADERS:
+        bodies = []
         for n in range(1, k + 1):
             for combo in itertools.product(range(len(STMTS)), repeat=n):
-                body = [STMTS[i] for i in combo]
+                bodies.append([STMTS[i] for i in combo])
+        for e in EXTRA:
+            bodies.append([e])
+            if k >= 2:
+                for x in SCOPE_SENSITIVE:
+                    bodies.append([e, x])
+                    bodies.append([x, e])
+        for body in bodies:
                 if h is None:
                     yield '\n'.join(body) + '\n'
                 else:
@@ -298,6 +325,19 @@ def rule_global_comprehension_target(case, sig, extra, match):
     return False
 
 
+def rule_global_paren_annotation(case, sig, extra, match):
+    """C12-F16: `(a): int` is a non-simple annotation target and binds nothing in CPython; parso counts it as an
+    assignment for the global/nonlocal analysis."""
+    text, v, m = extra
+    if not _global_issue(sig):
+        return False
+    for es in _names_in(m, ('expr_stmt',)):
+        ch = es.children
+        if len(ch) == 2 and ch[1].type == 'annassign' and ch[0].type == 'atom' and ch[0].children[0] == '(':
+            return True
+    return False
+
+
 def rule_await_36(case, sig, extra, match):
     """C12-F6: grammar 3.6 treats async/await as keywords; CPython 3.6 still accepts them as identifiers
     (documented upstream limitation), so e.g. a call `await ()` is judged as an await expression."""
@@ -311,7 +351,7 @@ def rule_debug_global(case, sig, extra, match):
         sig[1] == "SyntaxError: name '__debug__' is used prior to global declaration"
 
 
-RULES = {'c12_global_comprehension_target': rule_global_comprehension_target, 'c12_continue_finally_loop': rule_continue_finally_loop, 'c12_async_comprehension': rule_async_comprehension,
+RULES = {'c12_global_paren_annotation': rule_global_paren_annotation, 'c12_global_comprehension_target': rule_global_comprehension_target, 'c12_continue_finally_loop': rule_continue_finally_loop, 'c12_async_comprehension': rule_async_comprehension,
          'c12_walrus_argument': rule_walrus_argument, 'c12_nested_format_spec': rule_nested_format_spec,
          'c12_pep701': rule_pep701, 'c12_global_type_params': rule_global_type_params, 'c12_await_36': rule_await_36, 'c12_debug_global': rule_debug_global, 'c12_formfeed_indent': rule_formfeed_indent, 'c12_global_lambda': rule_global_lambda,
          'c12_global_import': rule_global_import, 'c12_global_annotation_module': rule_global_annotation_module,
